@@ -2223,7 +2223,7 @@ class SQLCompiler(Compiled):
                         assert values is not None
                         new_processors.update(
                             (
-                                "%s_%s_%s" % (name, i, j),
+                                "%s_%s_%s" % (escaped_name, i, j),
                                 tuple_processors[name][j - 1],
                             )
                             for i, tuple_element in enumerate(values, 1)
